@@ -223,6 +223,19 @@ fn handle(req: &Value) -> Value {
             json!({"ok": true, "bank": dump_bank(&bank)})
         }
         "entry" => entry_call(req),
+        "panic_step" => {
+            use marginfi::state::panic_state::PanicStateImpl;
+            use marginfi_type_crate::types::PanicState;
+            let mut ps = PanicState::zeroed();
+            let st = &req["state"];
+            ps.pause_flags = i128v(&st["pause_flags"]) as u8; ps.daily_pause_count = i128v(&st["daily_pause_count"]) as u8;
+            ps.consecutive_pause_count = i128v(&st["consecutive_pause_count"]) as u8;
+            ps.pause_start_timestamp = i128v(&st["pause_start_timestamp"]) as i64; ps.last_daily_reset_timestamp = i128v(&st["last_daily_reset_timestamp"]) as i64;
+            let now = i128v(&req["now"]) as i64;
+            let ok = match req["op"].as_str().unwrap() { "pause" => ps.pause(now).is_ok(), "unpause" => { ps.unpause(); true }, _ => { ps.unpause_if_expired(now); true } };
+            json!({"ok": ok, "state": {"pause_flags": ps.pause_flags, "daily_pause_count": ps.daily_pause_count, "consecutive_pause_count": ps.consecutive_pause_count,
+                   "pause_start_timestamp": ps.pause_start_timestamp, "last_daily_reset_timestamp": ps.last_daily_reset_timestamp}})
+        }
         "remaining_deposit_capacity" => {
             let bank = mk_bank(req.get("bank"));
             match bank.get_remaining_deposit_capacity() {
